@@ -11,6 +11,8 @@ NOTE = ("Trusted base: go/ssa lowering, the gosx interpreter (SSA semantics, sch
 claimed = {
  "C19": dict(text="Every plan shape within the bound (<=2 blocks, <=2 sequences, <=2 actions, optional groups, nil vs empty slices) and every early-stop position (a solver variable) is executed symbolically through the real walk.Plan/walkChecks/walkBlock/walkSequence; order, ancestor chains (compared after the walk, so append-aliasing shows) and stop behaviour are asserted against an independent enumeration.",
              ref="6/C19", note=NOTE + " The append growth rule of the Go runtime is re-implemented in the interpreter."),
+ "C20": dict(text="Every builder call sequence of bounded length (15 call kinds incl. nil/blank arguments, check type and block arguments symbolic) is run through the real builder and a reference interpreter written from the documentation; after each call Err() presence and identity (sticky first error) are asserted, every history ends in Plan() whose result is compared structurally with the directly constructed plan; any panic is a violation. A second harness starts from every cursor level x stored error x emitted state constructed directly.",
+             ref="6/C20", note=NOTE),
 }
 NA = {
  "C17": "quantifies over Go type shapes and the code is reflection from top to bottom (reflect, html/template, deep.MustCopy); go/ssa gives no semantics for reflect and types are not SMT values, so a solver would decide nothing (DESIGN.md section 7)",
